@@ -89,6 +89,10 @@ impl ValueTree for CaseTree {
         self.cur.clone()
     }
     fn simplify(&mut self) -> bool {
+        // huge payloads are reported as they are: the greedy structural shrinker is quadratic
+        if self.cur.payload.size() > 4000 {
+            return false;
+        }
         // `cur` is known to fail: make it the base and try its first reduction
         self.prev = self.cur.clone();
         self.idx = 0;
